@@ -4,10 +4,13 @@
    receives net time +dt/2 and every bond net time -dt/2; and without noise the order-1 and order-2 pipelines apply the same
    number of unitary steps per column.  PARTIAL — not mechanised: that each local Krylov step is the unitary it stands for (C19),
    that truncation perturbs by at most the threshold (C09), that a symmetric splitting is second-order accurate and BUG first
-   order (searched numerically against exp(-iHt)). *)
+   order (searched numerically against exp(-iHt)).
+   The BUG integrator's step list (bug.bug) is in the model too: every site is evolved forward by one full dt exactly once, from the
+   last site down to the first, with the operator tensor of its own site, the left block of the sites below it and the right block
+   of the already updated sites above it, and one truncation closes the step. *)
 From Coq Require Import List Arith ZArith.
 Import ListNotations.
-From Yaqs Require Import Model.TdvpSweep Proofs.TdvpSweepP Model.JumpPipeline Proofs.JumpPipelineP.
+From Yaqs Require Import Model.TdvpSweep Proofs.TdvpSweepP Model.JumpPipeline Proofs.JumpPipelineP Model.BugSweep Proofs.BugSweepP.
 
 Theorem C05_time_budget : forall ones, 2 <= length ones -> sane ones ->
   (forall j, j < length ones -> total_site j (fw 0 ones false) = 1%Z) /\
@@ -25,6 +28,23 @@ Theorem C05_orders_apply_same_unitaries : forall sched noise j, 1 <= j ->
   count_sym U (w1 sched noise j) = count_sym U (sample2 sched j).
 Proof. intros sched noise j Hj. rewrite (w1_U sched noise j). rewrite (order2_time sched j Hj). reflexivity. Qed.
 Print Assumptions C05_orders_apply_same_unitaries.
+
+Theorem C05_bug_time_budget : forall L j, btotal j (bug_steps L) = if j <? L then 1%Z else 0%Z.
+Proof. exact bug_time_budget. Qed.
+Print Assumptions C05_bug_time_budget.
+Theorem C05_bug_own_blocks : forall L s, In s (bug_steps L) ->
+  match s with BUpd i o l r => i < L /\ o = i /\ l = i /\ r = S i | BTrunc => True end.
+Proof. exact bug_own_blocks. Qed.
+Print Assumptions C05_bug_own_blocks.
+Theorem C05_bug_right_block_is_updated : forall L pre i o l r post, bug_steps L = pre ++ BUpd i o l r :: post ->
+  forall j, i < j -> j < L -> In j (bsites pre).
+Proof. exact bug_right_block_is_updated. Qed.
+Print Assumptions C05_bug_right_block_is_updated.
+Theorem C05_bug_truncates_last : forall L, exists pre, bug_steps L = pre ++ [BTrunc] /\ ~ In BTrunc pre.
+Proof. exact bug_truncates_last. Qed.
+Print Assumptions C05_bug_truncates_last.
+Example C05_bug_example : bug_steps 3 = [BUpd 2 2 2 3; BUpd 1 1 1 2; BUpd 0 0 0 1; BTrunc].
+Proof. vm_compute. reflexivity. Qed.
 
 Example C05_example : fw 0 [false; true; false; false] false = [TPair 0; TSite 1 false; TSite 1 true; TBond 1; TPair 2]
   /\ sweep [false;false;false] [false;false;false] = [TPair 0; TSite 1 false; TPair 1; TPair 1; TSite 1 false; TPair 0].
